@@ -124,7 +124,13 @@ class IndividualAddress(BaseAddress):
             self.raw = address.raw
         elif isinstance(address, str):
             if address.isdecimal():
-                self.raw = int(address)
+                try:
+                    self.raw = int(address)
+                except ValueError as err:
+                    # int() refuses strings of more than 4300 digits
+                    raise CouldNotParseAddress(
+                        address, message="Address out of range (0..65535)"
+                    ) from err
             else:
                 self.raw = self.__string_to_int(address)
         else:
@@ -240,7 +246,13 @@ class GroupAddress(BaseAddress):
             self.raw = address.raw
         elif isinstance(address, str):
             if address.isdecimal():
-                self.raw = int(address)
+                try:
+                    self.raw = int(address)
+                except ValueError as err:
+                    # int() refuses strings of more than 4300 digits
+                    raise CouldNotParseAddress(
+                        address, message="Address out of range (0..65535)"
+                    ) from err
             else:
                 self.raw = self.__string_to_int(address)
         else:
